@@ -6,7 +6,7 @@ PROP = dict(
                "Intersect, Difference, Xor, Not, Shift, Count; depth <= 4, arity <= 3) and every step of generated Set/Clear/ClearRow/Store programs with a "
                "naive map-based model of the documented semantics. Exploration, not proof: held on everything generated.",
     level_note="Trusted: Go toolchain, rapid, the ~300-line model in gpql_model_test.go. Single node only (placement independence is C17). Time ranges use bounds "
-               "aligned to the smallest unit of the field's quantum (unaligned bounds are C18); int fields use min=0, are primed to their full bit depth and avoid strict `<` with a value <= 0 and integer-empty between intervals (findings D16, DQA2, DQA6 of group gQ1: int semantics are C14); "
+               "aligned to the smallest unit of the field's quantum (unaligned bounds are C18); int leaves use fields declared around zero, one-sided and with a non-zero base, values and predicates at 0, +-1, stored values +-1, the declared bounds +-1 and far outside, all six operators, both between forms (also empty/inverted intervals) and != null; "
                "keyed indexes/fields are not generated. Open finding D18 (Shift carry over a shard edge below a per-shard operator or Store) is tolerated by exactly that shape.",
     rule="distinct = hash of schema + data program + query texts. non-trivial = some query of depth >= 2 whose leaf operands hold bits in >= 2 shards, or a Shift "
          "whose operand has a bit on the last column of a container or shard, or a Not while some shard with existence data holds no bit of the operand, or (write "
@@ -15,7 +15,7 @@ PROP = dict(
                  "missing field: any error is accepted; if a result is returned the missing field counts as empty. Not without trackExistence must return an error (docs: 'requires').",
                  "open-ended time ranges (only from / only to) are generated only for quanta with a year view and assume the wall clock is later than 2019 (default to = now + 1 day)",
                  "boolean results of writes are compared where the docs pin them down (not for Set with a timestamp: several views are written by one call)",
-                 "Clear is not generated on noStandardView time fields (finding D22 of group gT); quantum 'H' alone is not generated (finding D21)"],
+                 "plain Row(f=r) is not generated on noStandardView time fields (not documented); all ten time quanta are generated"],
     tags=["gpql"],
     units=[
         U("expr", "./server", "^TestVerifC15_Expr$", 200, 3000, timeout={"quick": 600, "thorough": 3000}),
